@@ -17,12 +17,27 @@ echo "== demo on patched copy" >> $log
 PYTHONPATH=$d /venv/bin/python $src/demo.py >> $log 2>&1; rc_pat=$?
 tests_rc=skipped; tests_cmd=""
 if [ "${NOTESTS:-0}" != "1" ]; then
-  tdirs=$(grep '^+++ b/' $src/patch.diff | sed 's#^+++ b/##' | xargs -n1 dirname | sort -u | while read p; do [ -d $d/$p/tests ] && echo $p/tests; done | tr '\n' ' ')
+  tdirs=$(grep '^+++ b/' $src/patch.diff | sed 's#^+++ b/##' | xargs -n1 dirname | sort -u | while read p; do q=$p; while [ "$q" != "." ] && [ "$q" != "/" ]; do if [ -d $d/$q/tests ]; then echo $q/tests; break; fi; q=$(dirname $q); done; done | sort -u | tr '\n' ' ')
   if [ -n "$tdirs" ]; then
     tests_cmd="pytest -q -p no:cacheprovider $tdirs"
     echo "== $tests_cmd" >> $log
-    ( cd $d && timeout 5400 /venv/bin/python -m pytest -q -p no:cacheprovider $tdirs 2>&1 | tail -15 ) >> $log 2>&1
-    tail -3 $log | grep -q " failed" && tests_rc=has_failures || tests_rc=pass
+    ( cd $d && timeout 5400 /venv/bin/python -m pytest -q -rf -p no:cacheprovider $tdirs 2>&1 | grep "^FAILED\|^ERROR\| passed\| failed" ) > $out/tests.log 2>&1
+    cat $out/tests.log >> $log
+    tests_rc=$(/venv/bin/python - $out/tests.log <<'PY'
+import json, re, sys
+af = set(json.load(open('/root/.vp/BASELINE.json'))['always_fail'])
+new = []
+for l in open(sys.argv[1]):
+    m = re.match(r'^(FAILED|ERROR) (\S+?)\.py::(\S+?)::(\S+)', l)
+    if m:
+        name = m.group(2).replace('/', '.') + '.' + m.group(3) + '::' + m.group(4).split(' ')[0]
+        if name not in af:
+            new.append(name)
+    elif re.match(r'^(FAILED|ERROR) ', l):
+        new.append(l.strip())
+print('pass' if not new else 'NEW_FAILURES:' + ','.join(new)[:300])
+PY
+)
   fi
 fi
 det=""
